@@ -51,5 +51,5 @@ def build():
     return F
 
 
-ISAS = [Isa("PIC16C84", "16C84", build(), "mot", gran=2, slot=2, base=0x20, maxaddr=0x3ff,
+ISAS = [Isa("PIC16C84", "16C84", build(), "mot", pcsym="*", gran=2, slot=2, base=0x20, maxaddr=0x3ff,
             golden=[("t_16c84", {"16c84": True})])]
